@@ -78,8 +78,8 @@ static void run_one(int n, const EL &es, const Cfg &c) {
         }
         if (ncons > 0 && es.size() >= (size_t)n) ctx.count("nontrivial_runs");
         }
-    } catch (std::exception &e) { ctx.count("aborted_by_exception"); ctx.cls("abort", string(e.what()).substr(0, 120)); }
-    catch (vpsc::CriticalFailure &f) { ctx.count("aborted_by_assert"); string w = f.what(); size_t p = w.find("expression"); ctx.cls("abort", w.substr(p == string::npos ? 0 : p, 140)); }
+    } catch (std::exception &e) { ctx.library_abort(string("exception: ") + e.what(), desc); }
+    catch (vpsc::CriticalFailure &f) { ctx.library_abort(f.what(), desc); }
 #ifdef C14_ARENA
     if (c.heap) mcx::heap_end();
 #endif
